@@ -44,6 +44,9 @@ def plan(tier):
     return [
         CH("repeat", "harness.c16", "repeat", rp, timeout=t, desc="model unchanged; second generation identical", stubs=["in-memory FS"]),
         CH("rerun", "harness.c16", "rerun_into_populated_dir", rr, timeout=t, desc="second run into populated directory", stubs=["in-memory FS"]),
+        CH("rerun_foreign", "harness.c16", "rerun_foreign", [f"0:{c},1:{a}" for c in range(2) for a in range(2)], timeout=t,
+           desc="placeholder stubs of 1-3 foreign classes from up to 4 modules (two share their last name component): second run == first run",
+           stubs=["in-memory FS"]),
         CH("inherited_twice", "harness.c16", "inherited_twice", [f"0:{s}" for s in range(N_FUN_SHAPES)], timeout=t,
            desc="same inherited method rendered identically in two subclasses"),
     ]
